@@ -216,6 +216,32 @@ def tree_stream(ctx, c, qs, meta):
     return fprogs
 
 
+def dup_props(decl_texts):
+    """True if some object type in the given declarations / types lists a property name twice (a flattened field colliding with an
+    own field): such a program is not a valid TypeScript type to begin with; outside the property's domain"""
+    from props import tsgrammar
+    def walk(t):
+        if not isinstance(t, tuple):
+            return False
+        if t[0] == "object":
+            keys = [m[1] for m in t[1] if m[0] == "prop"]
+            if len(keys) != len(set(keys)):
+                return True
+            return any(walk(m[3]) if m[0] == "prop" else (walk(m[2]) or walk(m[4])) for m in t[1])
+        return any(walk(y) for x in t[1:] for y in (x if isinstance(x, list) else [x]))
+    for d in decl_texts:
+        try:
+            if d.startswith("type "):
+                mod = tsgrammar.parse_module("export " + d + "\n")
+                if any(walk(x[2]) for x in mod["decls"]):
+                    return True
+            elif walk(tsgrammar.parse_type(d)):
+                return True
+        except tsgrammar.TsSyntaxError:
+            pass
+    return False
+
+
 def xdecls(xprogs, xreal, xi):
     return [r["decl"]["ok"] for r in xreal[xi] if "ok" in r.get("decl", {})]
 
@@ -296,6 +322,9 @@ def run(ctx):
             unparsed += 1
             if unparsed <= 3:
                 ctx.broken.append(f"oracle cannot read the implementation's TypeScript: {json.dumps(v)[:200]} for {q['ty'][:200]} / decls {q['decls'][:2]}")
+            continue
+        if dup_props(q["decls"] + [q["ty"]]):
+            skipped_dup += 1          # duplicate property names (own field vs flattened field): not a type
             continue
         fails += 1
         if fails <= 5:
